@@ -90,7 +90,7 @@ ENTRIES = [
      'char::to_string encodes into a buffer sized by len_utf8'),
     (r'HashMap<K, V, S, A> as std::clone::Clone>::clone$', r'^hashbrown::raw::', r'^(assert:DivisionByZero|diverge:core::panicking::panic)$',
      'hashbrown table layout arithmetic on its own non-zero constants / internal invariants'),
-    (r'HashMap<K, V, S> as std::default::Default>::default$', r'std::thread::LocalKey::<T>::(with|try_with)$', r'^(diverge:std::thread::local::panic_access_error|indirect)$',
+    (r'HashMap<K, V, S> as std::default::Default>::default$|^std::collections::HashMap::<K, V>::(new|with_capacity)$', r'std::thread::LocalKey::<T>::(with|try_with)$', r'^(diverge:std::thread::local::panic_access_error|indirect)$',
      'RandomState::new reads a thread-local seed; panics only during thread-local destruction (ASSUMED: evaluation is not run from a TLS destructor)'),
     (r'HashMap::<K, V, S, A>::(insert|get|get_mut|remove|contains_key|entry)$|HashMap<K, V, S, A> as std::clone::Clone>::clone$', r'^(hashbrown::raw::|<std::ops::Range<usize> as std::iter::adapters::step_by|std::iter::StepBy::<I>::new)', r'^(assert:(DivisionByZero|RemainderByZero|Overflow)|diverge:core::panicking::panic|indirect)$',
      'hashbrown rehash: step_by(Group::WIDTH) with a non-zero constant, capacity arithmetic bounded by allocation limits, hasher closure built in place'),
@@ -114,7 +114,7 @@ ENTRIES = [
      'Arc::drop issues fence(Acquire): the panic is for the constant Relaxed ordering only'),
     (r"Formatter::<'a>::write_fmt$|^std::fmt::format$|Debug>::fmt$|Display>::fmt$", r'std::fmt::Write::write_str$', r'^virtual:std::fmt::Write::write_str$',
      'formatting writes to the caller\'s writer (ASSUMED not to panic: String / stdout formatters only return Err)'),
-    (r'Box<F, A> as std::ops::Fn<Args>>::call$', r'^std::ops::Fn::call$', r'^virtual:std::ops::Fn::call$',
+    (r'Box<F, A> as std::ops::Fn<Args>>::call$|^std::ops::Fn::call$', r'^std::ops::Fn::call$', r'^virtual:std::ops::Fn::call$',
      'call of a stored Function: user closures are the property\'s assumption boundary; builtin closures are entered where builtin_function builds them'),
 ]
 ENTRIES = [(re.compile(a), re.compile(c), re.compile(k), why) for a, c, k, why in ENTRIES]
@@ -145,6 +145,8 @@ TOTAL_APIS = [re.compile(x) for x in [
     r'^<&.* as std::iter::IntoIterator>::into_iter$', r'^<I as std::iter::IntoIterator>::into_iter$', r'^<&mut I as std::iter::Iterator>::' + _ITER + '$',
     r'^std::iter::Peekable::<I>::(peek|peek_mut|next_if|next_if_eq)$',
     r'^std::str::(Chars|CharIndices)(::<[^>]*>)?::(as_str|offset)$',
+    r"^std::fmt::Formatter::<'a>::(debug_struct|debug_tuple|debug_list|debug_set|debug_map|write_str|write_fmt|pad|alternate|width|precision)$",
+    r"^std::fmt::(DebugStruct|DebugTuple|DebugList|DebugSet|DebugMap)::<'a, 'b>::(field|finish|finish_non_exhaustive|entry|entries|key|value)$",
     r'^std::(option::Option|result::Result)::<[^>]*>::' + _OPT + '$',
     r'^(core|std)::num::<impl (i|u)(8|16|32|64|128|size)>::' + _INT + '$',
     r'^(core|std)::f(32|64)::<impl f(32|64)>::' + _FLOAT + '$',
